@@ -96,7 +96,10 @@ def handle (op : String) (j : Json) : Except String Json := do
       match resolve handlers (args.map TypeArg.str) [] with
       | .error _ => pure (Json.mkObj [("err", Json.str "ValueError")], Json.mkObj [("err", Json.str "ValueError")])
       | .ok xts =>
-        pure (Json.mkObj [("ok", jnats (search nodes idx xts below))],
+        let sorted := match xts with
+          | [xt] => indexSortedB idx xt
+          | _ => false
+        pure (Json.mkObj [("ok", jnats (search nodes idx xts below)), ("sorted", Json.bool sorted)],
               Json.mkObj [("ok", jnats (scan nodes xts below))]))
     pure (Json.mkObj [("consistent", Json.bool (indexConsistentB nodes idx)),
       ("results", Json.arr (answers.map (·.1)).toArray), ("scans", Json.arr (answers.map (·.2)).toArray)])
